@@ -77,6 +77,37 @@ func escapesWithout(fn *ssa.Function, from ssa.Instruction, isRepair func(ssa.In
 	return false, ""
 }
 
+// escapesWithoutFrom: like escapesWithout but starting at the beginning of block start
+// and treating any return (not only successful ones) as completion.
+func escapesWithoutFrom(fn *ssa.Function, start *ssa.BasicBlock, isRepair func(ssa.Instruction) bool) (bool, string) {
+	seen := map[int]bool{start.Index: true}
+	work := []*ssa.BasicBlock{start}
+	for len(work) > 0 {
+		b := work[len(work)-1]
+		work = work[:len(work)-1]
+		repaired := false
+		for _, ins := range b.Instrs {
+			if isRepair(ins) {
+				repaired = true
+				break
+			}
+			if _, ok := ins.(*ssa.Return); ok {
+				return true, "the function returns"
+			}
+		}
+		if repaired {
+			continue
+		}
+		for _, s := range b.Succs {
+			if !seen[s.Index] {
+				seen[s.Index] = true
+				work = append(work, s)
+			}
+		}
+	}
+	return false, ""
+}
+
 // ruleA3REPAIR: a model field handed to an in-place algorithm is written back
 // (SetField on the same Info and column) before the operation completes.
 func ruleA3REPAIR(p *Program, r *Reporter) {
@@ -620,7 +651,11 @@ func ruleX5(p *Program, r *Reporter) {
 	const id = "X5"
 	mp := mutatedParams(p)
 	f := getFreshness(p)
-	allowed := map[string]bool{"(*cache.RowCache).Create": true, "(*cache.RowCache).Update": true, "(*cache.RowCache).Delete": true, "cache.newRowCache": true, "(*cache.RowCache).newIndexes": true}
+	allowed := map[string]bool{}
+	for fn := range p.PrivateRegion(p.Fn("cache", "RowCache", "Create"), p.Fn("cache", "RowCache", "Update"), p.Fn("cache", "RowCache", "Delete"),
+		p.Fn("cache", "", "newRowCache"), p.Fn("cache", "RowCache", "newIndexes")) {
+		allowed[funcName(fn)] = true
+	}
 	var names []string
 	for fn, ps := range mp {
 		var is []string
